@@ -159,11 +159,11 @@ theorem componentsByName_length (enc : τ → ν → Enc) (cols : List (Col τ))
 
 /-! ### the partition key of a table from the schema rows -/
 
-theorem place_length : ∀ (pk : List (String × Nat)) (a : List (Option String)), (place pk a).length = a.length
+theorem place_length {α : Type} : ∀ (pk : List (α × Nat)) (a : List (Option α)), (place pk a).length = a.length
   | [], a => rfl
   | (n, p) :: r, a => by simp [place, place_length r]
 
-theorem place_other : ∀ (pk : List (String × Nat)) (a : List (Option String)) (i : Nat),
+theorem place_other {α : Type} : ∀ (pk : List (α × Nat)) (a : List (Option α)) (i : Nat),
     (∀ x ∈ pk, x.2 ≠ i) → (place pk a)[i]? = a[i]?
   | [], a, i, _ => rfl
   | (n, p) :: r, a, i, h => by
@@ -171,7 +171,7 @@ theorem place_other : ∀ (pk : List (String × Nat)) (a : List (Option String))
     rw [place, place_other r _ i (fun x hx => h x (by simp [hx]))]
     simp [hp]
 
-theorem place_get : ∀ (pk : List (String × Nat)) (a : List (Option String)),
+theorem place_get {α : Type} : ∀ (pk : List (α × Nat)) (a : List (Option α)),
     (pk.map (·.2)).Nodup → (∀ x ∈ pk, x.2 < a.length) →
     ∀ x ∈ pk, (place pk a)[x.2]? = some (some x.1)
   | [], _, _, _, x, hx => by simp at hx
@@ -189,7 +189,7 @@ theorem place_get : ∀ (pk : List (String × Nat)) (a : List (Option String)),
     | tail _ hx' =>
       exact place_get r _ hnd.2 (by intro y hy; simpa using hlt y (by simp [hy])) x hx'
 
-theorem pkCount_gt : ∀ (pk : List (String × Nat)), ∀ x ∈ pk, x.2 < pkCount pk
+theorem pkCount_gt {α : Type} : ∀ (pk : List (α × Nat)), ∀ x ∈ pk, x.2 < pkCount pk
   | [], x, hx => by simp at hx
   | (n, p) :: r, x, hx => by
     simp only [pkCount]
